@@ -42,6 +42,11 @@ class ContractMixin:
         for n, v in list(bound.items()):
             t = ptypes.get(n)
             if t is not None and not (isinstance(v.t, TConst) and v.const is None and not isinstance(v.extra, list)):
+                if isinstance(t, TOpt) and isinstance(t.inner, TDict):
+                    # Optional[dict] has no single sort: a dict (or None) actual is handed on as it is
+                    if isinstance(v.t, TConst) and v.const is not None and isinstance(v.const.v, dict):
+                        bound[n] = self.reify(v)
+                    continue
                 if isinstance(t, TList) and v.const is not None and isinstance(v.const.v, tuple):
                     v = mk_const(list(v.const.v))  # a literal tuple passed where a sequence is expected
                 try:
